@@ -26,13 +26,14 @@ def transVal [Neg K] (rev : Bool) (e : K) : K := if rev then -e else e
 /-- value written to the circuit section for user amplitude `v` -/
 def savedVal [Neg K] (rev : Bool) (v : K) : K := transVal rev (fieldVal rev v)
 
-/-- Elements.py: `self._phi = phi; if self._sin: self._phi -= np.pi/2` -/
-def phaseField [Sub K] (halfPi : K) (sin : Bool) (phi : K) : K := if sin then phi - halfPi else phi
+/-- Elements.py: `self._phi = phi; if self._sin: self._phi -= 90 if deg else np.pi/2` -/
+def phaseField [Sub K] (halfPi ninety : K) (sin deg : Bool) (phi : K) : K :=
+  if sin then phi - (if deg then ninety else halfPi) else phi
 /-- translator: `phi = element.phi*pi/180 if element.deg else element.phi` -/
 def phaseTrans (toRad : K → K) (deg : Bool) (phi : K) : K := if deg then toRad phi else phi
-/-- phase written to the circuit section for user phase `phi` (flags persisted next to it) -/
-def savedPhase [Sub K] (halfPi : K) (toRad : K → K) (sin deg : Bool) (phi : K) : K :=
-  phaseTrans toRad deg (phaseField halfPi sin phi)
+/-- phase written to the circuit section for user phase `phi` -/
+def savedPhase [Sub K] (halfPi ninety : K) (toRad : K → K) (sin deg : Bool) (phi : K) : K :=
+  phaseTrans toRad deg (phaseField halfPi ninety sin deg phi)
 
 end Kernels
 
@@ -44,15 +45,11 @@ theorem savedVal_eq {K : Type} [Neg K] (hnn : ∀ v : K, - -v = v) (rev : Bool) 
 theorem GQ.neg_neg' (z : GQ) : - -z = z := by
   cases z; simp [GQ.neg_def]
 
-/-- without the `deg` / `sin` flags the saved phase is the user's phase, so a reload (which
-feeds the saved phase back as the user's phase) reproduces it -/
-theorem savedPhase_noflags {K : Type} [Sub K] (halfPi : K) (toRad : K → K) (phi : K) :
-    savedPhase halfPi toRad false false phi = phi := rfl
-
-/-- with a flag set, the second cycle applies the conversion to an already converted phase -/
-theorem savedPhase_second_cycle {K : Type} [Sub K] (halfPi : K) (toRad : K → K) (sin deg : Bool) (phi : K) :
-    savedPhase halfPi toRad sin deg (savedPhase halfPi toRad sin deg phi) =
-      phaseTrans toRad deg (phaseField halfPi sin (phaseTrans toRad deg (phaseField halfPi sin phi))) := rfl
+/-- `undictify_element` feeds the saved phase back with both flags cleared: the reloaded source
+saves the same phase again -/
+theorem savedPhase_reload {K : Type} [Sub K] (halfPi ninety : K) (toRad : K → K) (sin deg : Bool) (phi : K) :
+    savedPhase halfPi ninety toRad false false (savedPhase halfPi ninety toRad sin deg phi) =
+      savedPhase halfPi ninety toRad sin deg phi := rfl
 
 /-! ### generic induction over cycles -/
 
